@@ -422,14 +422,18 @@ func (f *Frame) applyContract(ct *FuncContract, fn *ssa.Function, args []Val, c 
 	}
 	// implicit lock preconditions
 	if fn != nil {
+		var conj []string
 		for _, il := range f.p.implicitLocks(fn) {
 			comp := heldComp(il.structT, il.field)
 			vc.regComp(comp, "(Array Int Int)")
 			if il.param < len(args) && (f.safety || f.contract != nil) {
-				cond := fmt.Sprintf("(= (select %s %s) 0)", vc.get(f.cur, comp), args[il.param].T)
-				lbl := f.label("lock", ct.Key+":"+il.field+":not-held-at-call")
-				f.assertObl("lock", lbl, nil, f.guard, cond, f.p.posString(pos))
+				conj = append(conj, fmt.Sprintf("(= (select %s %s) 0)", vc.get(f.cur, comp), args[il.param].T))
 			}
+		}
+		if len(conj) > 0 {
+			// the callee (transitively) acquires these locks on its arguments: none may be held here
+			lbl := f.label("lock", ct.Key+":locks-not-held-at-call")
+			f.assertObl("lock", lbl, nil, f.guard, and(conj...), f.p.posString(pos))
 		}
 	}
 	if fn != nil {
@@ -1774,6 +1778,7 @@ func (f *Frame) checkReturnLocks(r *ssa.Return) {
 		}
 	}
 	sort.Strings(comps)
+	var conj []string
 	for _, c := range comps {
 		cur, ent := f.vc.get(f.cur, c), f.vc.get(f.entry, c)
 		if cur == ent {
@@ -1790,8 +1795,12 @@ func (f *Frame) checkReturnLocks(r *ssa.Return) {
 		if skip {
 			continue
 		}
-		lbl := f.label("lock", strings.TrimPrefix(c, "Held_")+":released-at-return")
-		f.assertObl("lock", lbl, nil, f.guard, eq(cur, ent), f.p.posString(r.Pos()))
+		conj = append(conj, eq(cur, ent))
+	}
+	if len(conj) > 0 {
+		// one obligation per return: every lock is back in its entry state
+		lbl := f.label("lock", "all-released-at-return")
+		f.assertObl("lock", lbl, nil, f.guard, and(conj...), f.p.posString(r.Pos()))
 	}
 }
 
